@@ -1,4 +1,5 @@
 """C12 Tree tensor network time evolution matches the exact propagator."""
+from vk.symx.harness import guarded
 import numpy as np
 import scipy.linalg
 
@@ -330,7 +331,7 @@ def check(run):
         cases.append(("aux", 2, s, run.tier))
     run_cases(run, worker, cases)
     from props import C12_sym
-    C12_sym.prove(run)
+    guarded(run, C12_sym.prove)
     run.rule = ("random trees with 2..4(5) nodes (shape enumeration, groupings, dummy nodes) x {spin+qn, electron-phonon} x 4 tree schemes x real/imaginary time x |H|t in "
                 "{0.1, 0.5}; 3-step histories; one-site PS at bond limits 1, 2 (norm/energy/limit); linear tree vs chain implementation; purified P x Q trees "
                 "(max_entangled_ex + imaginary time) vs dense Gibbs state; distinct = case x clause")
